@@ -196,3 +196,6 @@ def check(run):
     # the M-step of the Gaussian components is the maximiser of the auxiliary function: the weighted mean and the weighted scatter divided by the mass, nothing added
     c08.check_mass_rank(run, A)
     c08.check_gaussian_dispatch(run, A)
+    # the model whose likelihood is reported is the model that was fitted: no parameter assigned to an instance that cached quantities of the old one
+    from .. import opt
+    opt.check_frozen_models(run, A, ['pb_bss.distribution'])
